@@ -3,6 +3,7 @@ package clip
 import (
 	"context"
 	"errors"
+	"io"
 	"fmt"
 	"runtime"
 	"strings"
@@ -25,6 +26,34 @@ type cval struct {
 }
 
 func (c *cval) Close() error { c.closed.Add(1); return nil }
+func (c *cval) tag()         {}
+
+// The updater's type parameter is either the concrete pointer type or an INTERFACE type whose
+// values happen to be closers (the zero value of an interface type is nil and closes nothing).
+type closerIface interface {
+	io.Closer
+	tag()
+}
+
+type updHandle interface {
+	Get() *cval
+	Err() error
+}
+
+type ptrUpd struct{ u *setec.Updater[*cval] }
+
+func (p ptrUpd) Get() *cval { return p.u.Get() }
+func (p ptrUpd) Err() error { return p.u.Err() }
+
+type ifaceUpd struct {
+	u *setec.Updater[closerIface]
+}
+
+func (p ifaceUpd) Get() *cval {
+	v, _ := p.u.Get().(*cval)
+	return v
+}
+func (p ifaceUpd) Err() error { return p.u.Err() }
 
 type UOp struct {
 	Kind string `json:"kind"` // install | get | new | new-during-install | pollnop | other | err
@@ -37,10 +66,11 @@ type UOp struct {
 type UpdaterCase struct {
 	Ops       []UOp `json:"ops"`
 	FailWrite []int `json:"fail_write"` // cache write calls (1-based) that fail; empty = no cache configured
+	Iface     bool  `json:"iface"`      // the updaters are Updater[<interface type>] rather than Updater[*T]
 }
 
 type upd struct {
-	u       *setec.Updater[*cval]
+	u       updHandle
 	cur     *cval
 	pending bool
 	wantErr bool
@@ -67,6 +97,9 @@ func runC15(t *testing.T, c UpdaterCase) (*h.Violation, h.Info) {
 		return h.V("harness", "NewStore: %v", err), info
 	}
 	defer st.Close()
+	if c.Iface {
+		info.Class("updater-of-an-interface-type")
+	}
 	// with a failing cache Refresh may report the cache error although the values were installed
 	refresh := func() error {
 		err := st.Refresh(context.Background())
@@ -106,7 +139,23 @@ func runC15(t *testing.T, c UpdaterCase) (*h.Violation, h.Info) {
 			u.built = append(u.built, v)
 			return v, nil
 		}
-		uu, err := setec.NewUpdater(context.Background(), st, "w", builder)
+		var uu updHandle
+		var err error
+		if c.Iface {
+			var x *setec.Updater[closerIface]
+			x, err = setec.NewUpdater(context.Background(), st, "w", func(b []byte) (closerIface, error) {
+				v, err := builder(b)
+				if err != nil {
+					return nil, err
+				}
+				return v, nil
+			})
+			uu = ifaceUpd{x}
+		} else {
+			var x *setec.Updater[*cval]
+			x, err = setec.NewUpdater(context.Background(), st, "w", builder)
+			uu = ptrUpd{x}
+		}
 		if fails[installed] {
 			if err == nil {
 				return h.V("initial-build-failure-reported", "step %d: NewUpdater succeeded although the builder rejects the current value", step)
@@ -268,7 +317,7 @@ func fromOf(c *cval) string {
 
 var c15 = &h.Campaign[UpdaterCase]{
 	Prop: "C15", Sub: "updater",
-	Rule: "rapid: sequences (1-40) over one watched secret: install a new version (service change + Refresh; the builder may be told to reject that version), Get / Err on any updater, create another updater mid-history, a poll that installs nothing, a poll that updates an unrelated secret; values implement io.Closer with a close counter; model per updater = pending-install flag + current value; non-trivial = >= 2 installs between two Gets of an updater, or a failed build followed by a successful one; distinct by sequence",
+	Rule: "rapid: sequences (1-40) over one watched secret: install a new version (service change + Refresh; the builder may be told to reject that version), Get / Err on any updater, create another updater mid-history, a poll that installs nothing, a poll that updates an unrelated secret; values implement io.Closer with a close counter, the updater being Updater[*T] or, one case in three, Updater[<interface type>]; model per updater = pending-install flag + current value; non-trivial = >= 2 installs between two Gets of an updater, or a failed build followed by a successful one; distinct by sequence",
 	Quick: 6000, Thorough: 2000000,
 	Gen: func(rt *rapid.T) UpdaterCase {
 		return UpdaterCase{Ops: rapid.SliceOfN(rapid.Custom(func(rt *rapid.T) UOp {
@@ -279,7 +328,7 @@ var c15 = &h.Campaign[UpdaterCase]{
 				o.Both = rapid.IntRange(0, 3).Draw(rt, "both") == 0
 			}
 			return o
-		}), h.LenBias(rt, 1, 40), 40).Draw(rt, "ops"), FailWrite: rapid.SampledFrom([][]int{nil, nil, {2}, {2, 3}, {3, 5, 6}, {1, 2, 3, 4, 5, 6, 7, 8, 9}}).Draw(rt, "failwrite")}
+		}), h.LenBias(rt, 1, 40), 40).Draw(rt, "ops"), FailWrite: rapid.SampledFrom([][]int{nil, nil, {2}, {2, 3}, {3, 5, 6}, {1, 2, 3, 4, 5, 6, 7, 8, 9}}).Draw(rt, "failwrite"), Iface: rapid.IntRange(0, 2).Draw(rt, "iface") == 0}
 	},
 	Run: runC15,
 }
@@ -330,6 +379,8 @@ func runC15Conc(t *testing.T, c ConcUpdaterCase) (*h.Violation, h.Info) {
 	stop := make(chan struct{})
 	var bad atomic.Value
 	var reads atomic.Int64
+	var acked atomic.Int64 // highest version whose installing Refresh has returned
+	acked.Store(1)
 	for g := 0; g < c.Getters; g++ {
 		wg.Add(1)
 		go func() {
@@ -342,11 +393,17 @@ func runC15Conc(t *testing.T, c ConcUpdaterCase) (*h.Violation, h.Info) {
 				default:
 				}
 				for ui, u := range us {
+					min := int(acked.Load())
 					v := u.Get()
 					reads.Add(1)
 					var n int
 					if _, err := fmt.Sscanf(v.from, "w#%d", &n); err != nil {
 						bad.Store(fmt.Sprintf("Get returned a value built from %q, which was never installed", v.from))
+						return
+					}
+					if n < min {
+						// this Get began after the install of version min had completed - whoever else is rebuilding
+						bad.Store(fmt.Sprintf("a Get that began after version %d had been installed returned a value built from version %d", min, n))
 						return
 					}
 					if n < lastVer[ui] {
@@ -365,6 +422,7 @@ func runC15Conc(t *testing.T, c ConcUpdaterCase) (*h.Violation, h.Info) {
 			wg.Wait()
 			return h.V("harness", "Refresh: %v", err), info
 		}
+		acked.Store(int64(v))
 	}
 	close(stop)
 	wg.Wait()
@@ -399,7 +457,7 @@ func runC15Conc(t *testing.T, c ConcUpdaterCase) (*h.Violation, h.Info) {
 
 var c15conc = &h.Campaign[ConcUpdaterCase]{
 	Prop: "C15", Sub: "concurrent",
-	Rule: "rapid: 2-6 goroutines spinning on Get of 1-3 updaters while 3-40 installs happen, under the race detector; per reader the versions seen never go backwards, the final Get of every updater is built from the last install, every replaced value closed exactly once, no current value closed; non-trivial = rebuilds happened while readers ran; distinct by (getters, installs, updaters) - schedules are sampled",
+	Rule: "rapid: 2-6 goroutines spinning on Get of 1-3 updaters while 3-40 installs happen, under the race detector; per reader the versions seen never go backwards, a Get that begins after the Refresh installing version v has returned yields a value built from version >= v, the final Get of every updater is built from the last install, every replaced value closed exactly once, no current value closed; non-trivial = rebuilds happened while readers ran; distinct by (getters, installs, updaters) - schedules are sampled",
 	Quick: 400, Thorough: 60000,
 	Gen: func(rt *rapid.T) ConcUpdaterCase {
 		return ConcUpdaterCase{Getters: rapid.IntRange(2, 6).Draw(rt, "getters"), Installs: rapid.IntRange(3, 40).Draw(rt, "installs"), Updaters: rapid.IntRange(1, 3).Draw(rt, "updaters")}
